@@ -30,7 +30,8 @@ def run(p: Program, rep: Report, tier: str) -> None:
         "path of from_app; the middleware wrapper calls the handler once and next_call is the only route to from_app. R20.3 "
         "iterator discipline: the iterator that was advanced to force the first chunk is the one that is drained afterwards. "
         "R20.4 status and body relay (status from the start event, every body message pushed, EOF exactly when more_body is "
-        "false). R20.5 the view decorators are pure pass-through. NOT decided: byte equality of streamed bodies."
+        "false). R20.5 the view decorators are pure pass-through. R20.6 the ASGI header text/bytes "
+        "conversions on the two sides of a middleware (from_app decode, list_headers encode) both use Latin-1, the only codec that reproduces every byte string. NOT decided: byte equality of streamed bodies."
     )
     folds = _headers_folds(p)
     rep.ok("R20.1", f"fact: Headers.__init__ folds repeated names: {folds}")
@@ -218,22 +219,30 @@ def run(p: Program, rep: Report, tier: str) -> None:
             raise AnalysisError(f"{side} middleware.d.{side} vanished")
         rep.analysed(inner.fq)
         nc = inner.nested.get("next_call")
-        hcalls = [c for c in calls_in(inner) if isinstance(c.func, ast.Name) and c.func.id == "handler"]
-        if len(hcalls) == 1 and [ast.unparse(a) for a in hcalls[0].args] == ["request", "next_call"]:
+        hname = mw.params[0] if mw.params else "handler"
+        hcalls = [c for c in calls_in(inner) if isinstance(c.func, ast.Name) and c.func.id == hname]
+        # roles: the request object built from the gateway arguments, the nested continuation
+        req_names = {t.id for n in walk_shallow(inner.node) if isinstance(n, ast.Assign) and isinstance(n.value, ast.Call) and ast.unparse(n.value.func) == "NextRequest" for t in n.targets if isinstance(t, ast.Name)}
+        if len(hcalls) == 1 and len(hcalls[0].args) == 2 and isinstance(hcalls[0].args[0], ast.Name) and hcalls[0].args[0].id in req_names \
+                and isinstance(hcalls[0].args[1], ast.Name) and nc is not None and hcalls[0].args[1].id == nc.name:
             rep.ok("R20.2", f"{side}: the middleware calls handler(request, next_call) exactly once")
         else:
             rep.violation("R20.2", construct(inner, text=f"{len(hcalls)} handler calls"), where(inner), f"{side}: the middleware wrapper does not call handler(request, next_call) exactly once")
         if nc is not None:
             fcalls = [c for c in calls_in(nc) if ast.unparse(c.func) == "NextResponse.from_app"]
-            if len(fcalls) == 1 and [ast.unparse(a) for a in fcalls[0].args] == ["app", "request"]:
+            if len(fcalls) == 1 and [ast.unparse(a) for a in fcalls[0].args] == [mw.nested["d"].params[0], nc.params[0]]:
                 rep.ok("R20.2", f"{side}: next_call -> NextResponse.from_app(app, request) once")
             else:
                 rep.violation("R20.2", construct(nc, text="next_call"), where(nc), f"{side}: next_call does not delegate exactly once to NextResponse.from_app(app, request)")
-        others = [c for c in calls_in(inner) if isinstance(c.func, ast.Name) and c.func.id == "app"]
+        others = [c for c in calls_in(inner) if isinstance(c.func, ast.Name) and c.func.id == mw.nested["d"].params[0]]
         if others:
             rep.violation("R20.2", construct(inner, others[0]), where(inner, others[0]), f"{side}: the middleware wrapper calls the inner application directly (it would run twice)")
         gw = ["environ", "start_response"] if side == "wsgi" else ["scope", "receive", "send"]
-        rcalls = [c for c in calls_in(inner) if isinstance(c.func, ast.Name) and c.func.id == "response"]
+        resp_names = set()
+        for n in walk_shallow(inner.node):
+            if isinstance(n, ast.Assign) and any(h is x for h in hcalls for x in ast.walk(n.value)):
+                resp_names |= {t.id for t in n.targets if isinstance(t, ast.Name)}
+        rcalls = [c for c in calls_in(inner) if isinstance(c.func, ast.Name) and c.func.id in resp_names]
         if len(rcalls) == 1 and [ast.unparse(a) for a in rcalls[0].args] == gw:
             rep.ok("R20.5", f"{side}: the handler's response is called once with the original gateway arguments")
         else:
@@ -247,7 +256,11 @@ def run(p: Program, rep: Report, tier: str) -> None:
         rep.analysed(view.fq)
         rets = [n for n in walk_shallow(view.node) if isinstance(n, ast.Return)]
         txt = ast.unparse(rets[0].value) if rets else ""
-        if txt in ("handler(request, next_call)", "await handler(request, next_call)") and len(rets) == 1 and len(view.node.body) <= 2:
+        dh = dec.params[0] if dec.params else "handler"
+        vp = view.params
+        dp = dec.nested["d"].params
+        want_txt = f"{dh}({vp[0]}, {dp[0]})" if len(vp) == 1 and len(dp) == 1 else None
+        if want_txt is not None and txt in (want_txt, "await " + want_txt) and len(rets) == 1 and len(view.node.body) <= 2:
             rep.ok("R20.5", f"{side}: decorator view returns handler(request, next_call) unchanged")
         else:
             rep.violation("R20.5", construct(view, text=f"return {txt}"), where(view), f"{side}: the view decorator does not return handler(request, next_call) unchanged")
@@ -256,17 +269,50 @@ def run(p: Program, rep: Report, tier: str) -> None:
         if rin is None:
             raise AnalysisError(f"{side} request_response.{side} vanished")
         rep.analysed(rin.fq)
-        vcalls = [c for c in calls_in(rin) if isinstance(c.func, ast.Name) and c.func.id == "view"]
+        vname = rr.params[0] if rr.params else "view"
+        vcalls = [c for c in calls_in(rin) if isinstance(c.func, ast.Name) and c.func.id == vname]
         if len(vcalls) == 1 and len(vcalls[0].args) == 1:
             rep.ok("R20.5", f"{side}: request_response calls the view exactly once")
         else:
             rep.violation("R20.5", construct(rin, text=f"{len(vcalls)} view calls"), where(rin), f"{side}: request_response does not call the view exactly once")
-        names = {ast.unparse(n.targets[0]) for n in walk_shallow(rin.node) if isinstance(n, ast.Assign) and isinstance(n.value, (ast.Call, ast.Await)) and "view(" in ast.unparse(n.value)}
+        names = {ast.unparse(n.targets[0]) for n in walk_shallow(rin.node) if isinstance(n, ast.Assign) and isinstance(n.value, (ast.Call, ast.Await)) and any(vc is x for vc in vcalls for x in ast.walk(n.value))}
         rc = [c for c in calls_in(rin) if isinstance(c.func, ast.Name) and c.func.id in names]
         if rc and all([ast.unparse(a) for a in c.args] == gw for c in rc):
             rep.ok("R20.5", f"{side}: the view's response is called with the original gateway arguments")
         else:
             rep.violation("R20.5", construct(rin, text="response call"), where(rin), f"{side}: request_response does not call the view's response with the original {gw}")
+    # ---------------------------------------------------------------- R20.6 header codec agreement (ASGI)
+    # an identity middleware decodes the inner application's header bytes (from_app) and the rebuilt response encodes them
+    # again (list_headers(as_bytes=True)): the bytes are reproduced for EVERY header only if both use the one codec that is
+    # a bijection between all byte strings and text - Latin-1
+    LATIN1 = ("latin-1", "latin1", "latin_1", "iso-8859-1", "iso8859-1", "l1", "8859")
+
+    def codecs_in(fn: FuncInfo, meth: str):
+        out = []
+        for c in calls_in(fn, deep=True):
+            if isinstance(c.func, ast.Attribute) and c.func.attr == meth:
+                arg = c.args[0] if c.args else next((k.value for k in c.keywords if k.arg == "encoding"), None)
+                out.append((c, arg.value.lower() if isinstance(arg, ast.Constant) and isinstance(arg.value, str) else ("utf-8" if arg is None else None)))
+        return out
+
+    lh = p.cls("baize.responses:BaseResponse").methods.get("list_headers")
+    afa = p.cls("baize.asgi.middleware:NextResponse").methods.get("from_app")
+    if lh is None or afa is None:
+        raise AnalysisError("BaseResponse.list_headers / asgi NextResponse.from_app vanished")
+    rep.analysed(lh.fq)
+    enc = codecs_in(lh, "encode")
+    decs = [(c, cd) for f in [afa] + list(afa.nested.values()) for c, cd in codecs_in(f, "decode")]
+    if len(enc) < 2 or len(decs) < 2:
+        rep.undecide("R20.6", f"expected the name/value encode calls of list_headers and the name/value decode calls of from_app, found {len(enc)}/{len(decs)}")
+    for what, fn_, items in (("list_headers(as_bytes=True) encodes", lh, enc), ("asgi from_app decodes", afa, decs)):
+        for c, cd in items:
+            if cd in LATIN1:
+                rep.ok("R20.6", f"{what} header text with Latin-1 ({ast.unparse(c)[:40]})")
+            else:
+                rep.violation("R20.6", construct(fn_, text=f"{ast.unparse(c.func)[:40]}({cd!r})"), where(fn_, c),
+                              f"{what} header text with {cd or 'a non-constant codec'}, not Latin-1: a header value with a non-ASCII byte sent by the inner application is decoded by the middleware with one codec and "
+                              "re-encoded with another, so wrapping the application changes (or fails on) that header")
+    rep.require_instances("R20.6", 4)
     rep.require_instances("R20.1", 1)
     rep.require_instances("R20.2", 8)
     rep.require_instances("R20.3", 2)
